@@ -1166,4 +1166,93 @@ theorem read_obs (cfg : Cfg) (σ : State) (s : Sid) (o : Obj) (a : Attr) (v : Va
       obtain ⟨x, hx, hobs⟩ := loadAttr_obs cfg s o a id _ v h hobjs hvol
       simpa [← hx] using hobs
 
+theorem getAttr_obs' (cfg : Cfg) (σ : State) (s : Sid) (o : Obj) (a : Attr) (f : Val → Val) (w : Val)
+    (h : (getAttr cfg σ s o a f).2.res = .ok (some w)) (hw : ((σ.sess s).objs o).wbits a = false)
+    (hvol : cfg.volatile a = false) :
+    ∃ x, ((σ.sess s).objs o).vals a = some x ∧ f x = w ∧ (((getAttr cfg σ s o a f).1.sess s).objs o).obs a = some x := by
+  unfold getAttr at h ⊢
+  simp only at h ⊢
+  split
+  · rename_i hv; simp [hv] at h
+  · rename_i x hv
+    simp only [hv] at h
+    refine ⟨x, hv, by simpa using h, ?_⟩
+    simp [State.withSess, ObjSt.read, hw, hvol, hv]
+
+/-- a row fetched into a NEW instance: every listed attribute gets the value the connection saw -/
+theorem fetchRow_new (σ σ2 : State) (s : Sid) (o : Obj) (as : List Attr) (fu : Bool) (a : Attr)
+    (h : fetchRow σ s o as fu = some σ2) (hp : ((σ.sess s).objs o).present = false) :
+    ((σ2.sess s).objs o).wbits a = false ∧
+    (a ∈ as → ((σ2.sess s).objs o).vals a = some (view σ s o a)) := by
+  unfold fetchRow at h
+  simp only [hp, Bool.false_eq_true, if_false] at h
+  split at h
+  · simp at h
+  · rename_i os2 hds
+    have := Option.some.inj h; subst this
+    unfold ObjSt.dbSet at hds
+    by_cases hany : (changed ObjSt.new (view σ s o) as).any ObjSt.new.rbits = true
+    · simp [hany] at hds
+    · simp only [hany] at hds
+      have := Option.some.inj hds; subst this
+      simp only [State.withSess, upd_same]
+      refine ⟨rfl, fun ha => ?_⟩
+      have hm : a ∈ changed ObjSt.new (view σ s o) as := by
+        unfold changed; exact List.mem_filter.mpr ⟨ha, by simp [ObjSt.new]⟩
+      have hc : (changed ObjSt.new (view σ s o) as).contains a = true := by simpa using hm
+      simp only [hc]
+      simp [ObjSt.new]
+
+/-- `E.get(id=o, a=v)` found the object while the session held no unflushed assignment to `a`: the application has
+    learnt `o.a = v`, and `v` is the recorded observation -/
+theorem find_obs (cfg : Cfg) (σ : State) (s : Sid) (o : Obj) (a : Attr) (v : Val)
+    (h : (step cfg σ s (.find o a v)).2.res = .ok (some 1)) (hw : ((σ.sess s).objs o).wbits a = false)
+    (hvol : cfg.volatile a = false) (ha : a ∈ cfg.attrs) :
+    (((step cfg σ s (.find o a v)).1.sess s).objs o).obs a = some v := by
+  have hwk := wake_sess σ s
+  have hw' : (((wake σ s).sess s).objs o).wbits a = false := by rw [hwk.1]; exact hw
+  simp only [step] at h ⊢
+  split
+  · rename_i hc
+    simp only [hc, if_true] at h
+    split
+    · rename_i hv
+      simp only [hv, if_true] at h
+      obtain ⟨x, _, hx, hobs⟩ := getAttr_obs' cfg _ s o a _ 1 h hw' hvol
+      by_cases hxv : x = v
+      · rw [hobs, hxv]
+      · simp [hxv] at hx
+    · rename_i hv
+      simp only [hv] at h
+      have hq := query_ok cfg _ s false _ _ h
+      rw [hq] at h ⊢
+      have hobjs : (((ensureTxn (setImmIf (wake σ s) s false) s).1.sess s).objs o).wbits a = false := by
+        rw [(ensureTxn_sess _ s).1, (setImmIf_sess _ s false).1]; exact hw'
+      obtain ⟨x, hx, hobs⟩ := loadAttr_obs cfg s o a _ _ 1 h hobjs hvol
+      by_cases hxv : x = v
+      · rw [hobs, hxv]
+      · simp [hxv] at hx
+  · rename_i hc
+    simp only [hc] at h
+    have hq := query_ok cfg _ s false _ _ h
+    rw [hq] at h ⊢
+    generalize hσ1 : (ensureTxn (setImmIf (wake σ s) s false) s).1 = σ1 at h ⊢
+    have hp1 : ((σ1.sess s).objs o).present = false := by
+      rw [← hσ1, (ensureTxn_sess _ s).1, (setImmIf_sess _ s false).1]
+      simpa using hc
+    unfold findInDb at h ⊢
+    by_cases hview : view σ1 s o a = v
+    · simp only [hview, if_true] at h ⊢
+      split
+      · rename_i hf; simp [hf] at h
+      · rename_i σ2 hf
+        simp only [hf] at h
+        have hn := fetchRow_new σ1 σ2 s o _ false a hf hp1
+        have hmem : a ∈ cfg.attrs.filter (fun b => !cfg.lazy b || b == a) := List.mem_filter.mpr ⟨ha, by simp⟩
+        have hval := hn.2 hmem
+        simp only [hval, Option.isSome_some, if_true] at h ⊢
+        obtain ⟨x, hx, _, hobs⟩ := getAttr_obs' cfg σ2 s o a _ 1 h hn.1 hvol
+        rw [hobs, ← hx, hval, hview]
+    · simp [hview] at h
+
 end PonyVerif.Model.Occ
